@@ -249,7 +249,9 @@ def compare(name, a, b, tol, hist):
             check(same, f"twin:{name}:value", f"after {hist}: answers of the long-lived estimator and of a fresh estimator with the same registered values differ: {np.ravel(x)[:4].tolist()} vs {np.ravel(y)[:4].tolist()}")
         else:
             xx, yy = x.astype(float), y.astype(float)
-            check(bool(np.all(np.abs(xx - yy) <= tol * (1 + np.abs(xx)))), f"twin:{name}:value",
+            fin = np.isfinite(xx) & np.isfinite(yy)
+            same_nonfinite = np.array_equal(np.where(fin, 0.0, xx), np.where(fin, 0.0, yy), equal_nan=True)
+            check(bool(same_nonfinite and np.all(np.abs(xx[fin] - yy[fin]) <= tol * (1 + np.abs(xx[fin])))), f"twin:{name}:value",
                   f"after {hist}: answers differ beyond solver tolerance: {np.ravel(xx)[:4].tolist()} vs {np.ravel(yy)[:4].tolist()}")
 
 
@@ -336,8 +338,20 @@ def fit_update(est, model, hist):
 def battery(est, model, hist, heavy, labs):
     n = model.n
     q, inputs = queries(n, heavy)
+    # the registered values held by the estimator must be the model's (to rounding) ...
+    check(np.allclose(np.asarray(est.K, dtype=float), model.K, rtol=1e-10, atol=0) and np.asarray(est.K).shape == model.K.shape, "model:K",
+          f"after {hist}: registered adaptation {np.ravel(est.K)[:4].tolist()} differs from the reference model {np.ravel(model.K)[:4].tolist()}")
+    check(np.allclose(np.asarray(est.baseline, dtype=float), model.baseline, rtol=1e-12, atol=0), "model:baseline", f"after {hist}: registered baseline differs from the reference model")
+    if model.registered:
+        check(np.array_equal(np.asarray(est.lb, dtype=float), model.lb) and np.array_equal(np.asarray(est.ub, dtype=float), model.ub), "model:bounds",
+              f"after {hist}: registered bounds lb={np.asarray(est.lb).tolist()} ub={np.asarray(est.ub).tolist()} differ from the reference model lb={model.lb.tolist()} ub={model.ub.tolist()}")
+        check(np.array_equal(np.asarray(est.sources, dtype=float), model.sources), "model:sources", f"after {hist}: registered sources differ from the reference model")
+    # ... and the twin is built from exactly those values (bit-identical inputs => bit-identical answers are required)
+    tm = Model(model.F, model.domain, model.w)
+    tm.K, tm.baseline = np.asarray(est.K, dtype=float).copy(), np.asarray(est.baseline, dtype=float).copy()
+    tm.sources, tm.lb, tm.ub, tm.targets = model.sources, model.lb, model.ub, model.targets
     with calling("twin construction"):
-        twin = build(model)
+        twin = build(tm)
     # (1) closed-form answers from the model
     sig = inputs["sig"]
     Q = model.capture(sig)
@@ -533,6 +547,6 @@ PROP = Prop(
                  "fits are compared at 2e-2 relative (default solver settings, warm starts differ between the two instances)"],
     subs=[
         Sub("exhaustive_histories", None, body_enum, enumerate_cases=enum_histories, quick=1, thorough=1, quick_shards=16, thorough_shards=16, min_nt_share=0.2),
-        Sub("random_histories", random_history(), body_random, quick=160, thorough=8000, quick_shards=8, min_nt_share=0.3),
+        Sub("random_histories", random_history(), body_random, quick=320, thorough=8000, quick_shards=16, min_nt_share=0.3),
     ],
 )
